@@ -196,6 +196,64 @@ func TestBoundedRewardArithmetic(t *testing.T) {
 			}
 		}
 	}
+	// claims that step through a reward-weight change: a position that has claimed before, accrues, sees the asset's weight change
+	// (a snapshot is stored), accrues again and claims - every deposit is paid out exactly once (within a unit per deposit and denom)
+	for _, nw := range []math.LegacyDec{math.LegacyNewDecWithPrec(5, 1), math.LegacyNewDec(3)} {
+		for _, stakeB := range []math.Int{math.NewInt(1_000_000), math.NewInt(3_000_000)} {
+			cases++
+			name := fmt.Sprintf("weight change 1 -> %s, stakes 1000000/%s", nw, stakeB)
+			app, ctx := createTestContext(t)
+			start := time.Now().UTC()
+			ctx = ctx.WithBlockTime(start).WithBlockHeight(1)
+			app.AllianceKeeper.InitGenesis(ctx, &types.GenesisState{
+				Params: types.DefaultParams(),
+				Assets: []types.AllianceAsset{types.NewAllianceAsset(AllianceDenom, math.LegacyNewDec(1), math.LegacyNewDec(0), math.LegacyNewDec(100), math.LegacyNewDec(0), start)},
+			})
+			addrs := test_helpers.AddTestAddrsIncremental(app, ctx, 4, sdk.NewCoins(sdk.NewCoin(AllianceDenom, math.NewInt(100_000_000)), sdk.NewCoin("rwa", math.NewInt(100_000_000))))
+			pks := test_helpers.CreateTestPubKeys(1)
+			valAddr := sdk.ValAddress(addrs[0])
+			test_helpers.RegisterNewValidator(t, app, ctx, teststaking.NewValidator(t, valAddr, pks[0]))
+			get := func() types.AllianceValidator {
+				v, err := app.AllianceKeeper.GetAllianceValidator(ctx, valAddr)
+				require.NoError(t, err, name)
+				return v
+			}
+			a, b := addrs[2], addrs[3]
+			_, err := app.AllianceKeeper.Delegate(ctx, a, get(), sdk.NewCoin(AllianceDenom, math.NewInt(1_000_000)))
+			require.NoError(t, err, name)
+			_, err = app.AllianceKeeper.Delegate(ctx, b, get(), sdk.NewCoin(AllianceDenom, stakeB))
+			require.NoError(t, err, name)
+			dep := func(h int64, n int64) {
+				ctx = ctx.WithBlockHeight(h).WithBlockTime(start.Add(time.Duration(h) * time.Minute))
+				require.NoError(t, app.AllianceKeeper.AddAssetsToRewardPool(ctx, addrs[1], get(), sdk.NewCoins(sdk.NewCoin("rwa", math.NewInt(n)))), name)
+			}
+			paidA, paidB := math.ZeroInt(), math.ZeroInt()
+			claim := func(who sdk.AccAddress, acc *math.Int) {
+				c, err := app.AllianceKeeper.ClaimDelegationRewards(ctx, who, get(), AllianceDenom)
+				if err != nil {
+					fact("claims_across_a_weight_change_pay_each_deposit_once", "%s: claim failed: %v", name, err)
+					return
+				}
+				*acc = acc.Add(c.AmountOf("rwa"))
+			}
+			dep(2, 4_000_000)
+			claim(a, &paidA) // a now carries a history entry; b has never claimed
+			dep(3, 4_000_000)
+			asset, _ := app.AllianceKeeper.GetAssetByDenom(ctx, AllianceDenom)
+			asset.RewardWeight = nw
+			ctx = ctx.WithBlockHeight(4).WithBlockTime(start.Add(4 * time.Minute))
+			require.NoError(t, app.AllianceKeeper.UpdateAllianceAsset(ctx, asset), name)
+			dep(5, 4_000_000)
+			claim(a, &paidA)
+			claim(b, &paidB)
+			total := math.NewInt(12_000_000)
+			shareA := total.MulRaw(1_000_000).Quo(stakeB.AddRaw(1_000_000))
+			shareB := total.Sub(shareA)
+			if paidA.Sub(shareA).Abs().GT(math.NewInt(3)) || paidB.Sub(shareB).Abs().GT(math.NewInt(3)) || paidA.Add(paidB).GT(total) {
+				fact("claims_across_a_weight_change_pay_each_deposit_once", "%s: three deposits of 4000000 were paid out as %s and %s (pro rata: %s and %s)", name, paidA, paidB, shareA, shareB)
+			}
+		}
+	}
 	fmt.Printf("BOUNDED-SUMMARY scenarios=%d seed=%d failed_facts=%d\n", cases, seed, len(failed))
 	if len(failed) > 0 {
 		t.Fail()
